@@ -147,6 +147,20 @@ let cmd_decref args = match args with
      | Base.Ok (v, rest) -> "ok " ^ string_of_z v ^ " " ^ len_diff b rest)
   | _ -> failwith "decref"
 
+(* anyw w dnbits wd base vals suffix : the spec-level layout with base and
+   increment width wd, then the three readers on layout ++ suffix *)
+let cmd_anyw args = match args with
+  | [w; dn; wd; base; vs; suf] ->
+    let w = z_of_string w and dn = z_of_string dn and wd = z_of_string wd
+    and base = n_of_string base and vs = nvals vs and suf = bits_of_string suf in
+    let n = Datatypes.length vs in
+    let e = lay_col_num w wd base vs in
+    let s = Datatypes.app e suf in
+    string_of_bits e ^ " | " ^ show_dec show_optn s (dec_col_num w n s)
+    ^ " | " ^ show_dec show_optn s (spec_dec_col_num w n s)
+    ^ " | " ^ show_dec show_optn s (dec_col_codeflag w dn n s)
+  | _ -> failwith "anyw"
+
 let () =
   register "nbu" cmd_nbu;
   register "minmax" cmd_minmax;
@@ -155,6 +169,7 @@ let () =
   register "deccf" cmd_deccf;
   register "specnum" cmd_specnum;
   register "laynum" cmd_laynum;
+  register "anyw" cmd_anyw;
   register "colnum" cmd_colnum;
   register "colcf" cmd_colcf;
   register "encstr" cmd_encstr;
